@@ -4,7 +4,8 @@ import Whv.Lemmas.Evm
 
 Model: `Whv/Model/Evm.lean` (per-head loop `classify`/`processHead` following `watcher.go` as repaired by
 `fixes/C10-head-jump-and-transient-error.diff`, re-observation `messageEvents`/`reobserve` following
-`by_transaction.go` + `watcher.go:225-312`, poller `pollBlocks`).  Event sequences (`Ev`, `run`) are in
+`by_transaction.go` + `watcher.go:225-312`, poller `pollBlocks`, `restart` = the supervisor calling `Run` again on the same
+`Watcher` after it returned with an error).  Event sequences (`Ev`, `run`) are in
 `Whv/Lemmas/Evm.lean`; heads in a sequence are arbitrary naturals, so every sequence theorem covers every head increment.
 
 Node answers are inputs (`rc : tx ↦ (receipt, err)`), so "final" is relative to them, as in the statement.
@@ -733,5 +734,71 @@ private def receiptFin : Receipt := { status := 1, bh := bh1, bn := some 121, lo
 
 example : reobsForwarded cfgEth (some (reobsHead cfgEth 132 100)) (messageEvents cfgEth.contract topic1 cfgEth.chainId (some receiptFin) false (some 1700000000)) = [] ∧
           reobsForwarded cfgEth (some (reobsHead cfgEth 153 121)) (messageEvents cfgEth.contract topic1 cfgEth.chainId (some receiptFin) false (some 1700000000)) = [mkMsg 2 ev1 1700000000] := by decide
+
+/-! ## `Run` returns with an error and the supervisor starts it again on the same `Watcher` -/
+
+/-- **A restart keeps what is pending.** `Run` never assigns `w.pending`; the new incarnation starts with the pending set the
+old one left behind, a poller that is switched off, and the head the node serves at that moment as the poller's last block. -/
+theorem c10_restart_keeps_pending (st : St) (W : Nat) :
+    (restart st W).pending = st.pending ∧ (restart st W).enabled = false ∧ (restart st W).last = W := ⟨rfl, rfl, rfl⟩
+
+example : (restart stRace 102).pending = [p1] := by decide
+
+/-- **... so a message that was pending when `Run` returned is still forwarded exactly once.** Over any sequence of events of
+the new incarnation (heads advancing by any amount) in which its key is not delivered again and every processed head finds a
+successful receipt pointing at its block, it is forwarded exactly once if some processed head reaches `height + conf`, never
+otherwise, and it stays pending exactly as long as no such head has been processed - it is not abandoned by the restart. -/
+theorem c10_restart_forwarded_once (cfg : Cfg) (topic : Bytes) (st : St) (W : Nat) (evs : List Ev) (p : Pend)
+    (hu : UniqueKeys st.pending) (hp : p ∈ st.pending) (hno : NoOverflow cfg p) (hst : ∀ e ∈ evs, Stable cfg topic p e) :
+    fwdCount p.key (run cfg topic (restart st W).pending evs).2 = (if evs.any (readyAt cfg p) then 1 else 0) ∧
+    (p ∈ (run cfg topic (restart st W).pending evs).1 ↔ evs.any (readyAt cfg p) = false) :=
+  c10_exactly_once cfg topic evs _ p (uniqueKeys_restart st W hu) hp hno hst
+
+example : fwdCount p1.key (run cfgBsc topic1 (restart stRace 102).pending [.head 102 false good1, .head 171 false good1, .head 172 false good1]).2 = 1 := by decide
+
+/-- **Nothing is forwarded a second time because of a restart.** A key that is not pending when `Run` returns (its message was
+forwarded or dropped by an earlier head) and is not delivered again is never forwarded by the new incarnation. -/
+theorem c10_restart_no_second_forward (cfg : Cfg) (topic : Bytes) (st : St) (W : Nat) (k : Key) (evs : List Ev)
+    (habs : ∀ q ∈ st.pending, q.key ≠ k)
+    (hl : ∀ e ∈ evs, ∀ l, e = .log l → nodeMatches cfg topic l = true → (mkPend cfg l.ev l.bt).key ≠ k) :
+    fwdCount k (run cfg topic (restart st W).pending evs).2 = 0 :=
+  (absent_run cfg topic k evs _ habs hl).1
+
+example : fwdCount p2.key (run cfgBsc topic1 (restart stRace 102).pending [.head 171 false goodAll]).2 = 0 := by decide
+
+/-- **The next log switches the new poller on, and the next head forwards.** After a restart the poller is off although
+something is pending (see the witness below); the log of any other message restores `PollerInv`, and the first head the node
+then reports above the restarted poller's first block forwards every pending message that has reached its depth and whose
+receipt is fine - by however much that head is ahead. -/
+theorem c10_restart_log_head_forwards (cfg : Cfg) (st : St) (W : Nat) (ev : Event) (bt : Nat) (W' : Nat) (rc : Bytes → RcAns)
+    (p : Pend) (hp : p ∈ st.pending) (hk : (mkPend cfg ev bt).key ≠ p.key) (hW : W < W') (hlt : W' < U64)
+    (hno : NoOverflow cfg p) (hrc : rc p.msg.tx = goodRc p) (hready : p.height + expConf cfg false p ≤ W') :
+    PollerInv (onLog cfg (restart st W) ev bt) ∧
+    ∃ r, (settle cfg (onLog cfg (restart st W) ev bt) W' rc).2 = some r ∧ p ∈ r.forwarded ∧
+      p ∉ (settle cfg (onLog cfg (restart st W) ev bt) W' rc).1.pending := by
+  refine ⟨fun _ => rfl, ?_⟩
+  have hp' : p ∈ (onLog cfg (restart st W) ev bt).pending := by
+    unfold onLog restart
+    exact mem_insert_of_ne hk hp
+  exact c10_settle_forwards cfg (onLog cfg (restart st W) ev bt) W' rc p (fun _ => rfl) hp' hW hlt hno hrc hready
+
+example : ((settle cfgBsc (onLog cfgBsc (restart stRace 102) ev2 1700000002) 175 goodAll).2.map (·.forwarded)) = some [p2, p1] := by decide
+
+/-- A `Run` that begins by re-creating the pending map (`restartFresh`, not the code) violates `c10_restart_keeps_pending` and
+`c10_restart_forwarded_once`: `p1` (block 101, cl 2) is pending, `Run` returns and is restarted at head 102, the log of `p2`
+switches the poller on, heads 105 and 175 are processed with every receipt fine - `p1` is never forwarded, although its
+transaction stayed in its block and no receipt lookup for it ever failed. This is the input the check reports for such a change
+(clauses `pending-lost` / `final-not-forwarded`, op `restart`). Last conjunct, about the code as it is: right after a restart
+the poller is off although something is pending (`PollerInv` does not hold until the next log arrives). -/
+theorem c10_restart_fresh_witness :
+    p1 ∉ (restartFresh stRace 102).pending ∧
+    fwdCount p1.key (run cfgBsc topic1 (onLog cfgBsc (restartFresh stRace 102) ev2 1700000002).pending
+      [.head 105 false goodAll, .head 175 false goodAll]).2 = 0 ∧
+    fwdCount p1.key (run cfgBsc topic1 (onLog cfgBsc (restart stRace 102) ev2 1700000002).pending
+      [.head 105 false goodAll, .head 175 false goodAll]).2 = 1 ∧
+    ¬ PollerInv (restart stRace 102) := by
+  refine ⟨by decide, by decide, by decide, ?_⟩
+  intro h
+  exact absurd (h (by decide)) (by decide)
 
 end Whv.C10
